@@ -1,10 +1,14 @@
 """C06: seeded runs reproducible, isolated, shared draws -- wrapper over harness/all_rand.py (scripted-tape runs of the unstratified and stratified tests and helpers)."""
 from .. import all_rand as AR
-from ..all_rand import COQ_HEADER, run, to_coq, extra_terms, nontrivial, key, cases, SKIPPED
+from ..all_rand import COQ_HEADER, run, to_coq, extra_terms, nontrivial, key, SKIPPED
 
-RULE = ("all scripted and real-seed runs: numpy's global state compared before/after every seeded call; equal int seeds under different global states; int seed vs SHA256(seed); RandomState replay; the bounds of the draws requested are predicted from sizes/stratification alone (model tape consumption; permute_within_groups one Fisher-Yates pass per group whatever the values)")
+RULE = ("all scripted and real-seed runs: numpy's global state compared before/after every seeded call; equal int seeds under different global states; int seed vs SHA256(seed); RandomState replay; the bounds of the draws requested are predicted from sizes/stratification alone (model tape consumption; permute_within_groups one Fisher-Yates pass per group whatever the values); Experiment.randomize / sim_npc / westfall_young and permute_incidence_fixed_sums with real seeds under different global states")
 ASSUMPTIONS = [
     "the generator is driven through a scripted subclass of cryptorandom.SHA256 (harness/tape.py): requests are answered lazily and logged; the same answers are replayed for the keep_dist twin",
     "data are exactly representable (small integers times group-size products times powers of two, optional large offsets), so named float statistics are exact; 't'-type statistics are black boxes checked through dist",
     "SHA-256 / Mersenne-Twister output is assumed uniform; condition.argsort() is an oracle input of the model"]
-oracle = AR.filtered_oracle(['irreproducible', 'int-vs-sha256', 'randomstate-replay', 'global-rng', 'keepdist-draws', 'draws-depend-on-data'])
+oracle = AR.filtered_oracle(['irreproducible', 'int-vs-sha256', 'randomstate-replay', 'global-rng', 'keepdist-draws', 'draws-depend-on-data', 'irreproducible'])
+
+
+def cases(tier, rng, dist):
+    return AR.cases(tier, rng, dist, extra=('exp', 'pifs'))
